@@ -304,7 +304,9 @@ MvOf(po, p)  == SumOver(DOMAIN po[p], [a \in DOMAIN po[p] |-> MarketValue(po[p][
 HoldingsOf(po, p) ==
   [a \in DOMAIN po[p] |->
      [qty |-> Net(po[p][a]), mv |-> MarketValue(po[p][a]),
-      rpnl |-> Realised(po[p][a]), upnl |-> Unrealised(po[p][a]), tpnl |-> Total(po[p][a])]]
+      rpnl |-> Realised(po[p][a]), upnl |-> Unrealised(po[p][a]), tpnl |-> Total(po[p][a]),
+      \* what C03 relates the P&L figures to: average cost incl. the open side's commission, and the ghost ledger
+      avg |-> AvgPrice(po[p][a]), paid |-> po[p][a].paid, fees |-> po[p][a].fees]]
 
 ObserveOf(ps, ca, po) ==
   [ hold   |-> [p \in ps |-> HoldingsOf(po, p)],
